@@ -5,6 +5,7 @@ yield point, the crash point and the I/O-error point.
 """
 import os
 import errno
+import traceback
 import hashlib
 import threading
 import collections
@@ -131,6 +132,14 @@ class World:
 
         def __exit__(self, et, ev, tb):
             self.w.by_thread.pop(self.a.ident, None)
+            if tb is not None:
+                # Drop the locals of every frame the exception unwound through,
+                # now and by reference counting.  Otherwise harness code that
+                # keeps the exception creates a cycle (exception -> traceback ->
+                # frame -> exception) that can hold a BytesIO.getbuffer() view of
+                # joblib's pure-python pickler; CPython 3.12's cyclic GC crashes
+                # clearing such a view (bytesiobuf_releasebuffer).
+                traceback.clear_frames(tb)
             if et is not None and issubclass(et, SimCrash):
                 self.w.event(self.a, "actor-killed", "", None)
                 return True  # the process is gone; the harness carries on
